@@ -1003,7 +1003,7 @@ impl<'r, R: Rng> ProgGen<'r, R> {
                         if prog.defs[d].params[i].cfg {
                             Ty::Marker(self.rng.gen_range(0..2))
                         } else if prog.defs[d].params[i].uint {
-                            Ty::Prim(*Prim::UINTS.choose(self.rng).unwrap())
+                            Ty::Prim(*Prim::UINTS[..4].choose(self.rng).unwrap())
                         } else {
                             self.closed_arg(&prog, d)
                         }
